@@ -473,6 +473,12 @@ def lower_bounds(items, upto_op):
 
 def note_guard(cond, lb):
     """record facts that hold *after* a check that raised when ``cond`` was true"""
+    if isinstance(cond, Sym) and cond.op == 'not' and isinstance(cond.args[0], Sym) and cond.args[0].op == 'cmp':
+        # ``if not (field >= k): raise`` - also when the comparison was handed to a checking helper as an argument
+        flip = {'>=': '<', '>': '<=', '<': '>=', '<=': '>', '==': '!=', '!=': '=='}
+        op, a, b = cond.args[0].args
+        if op in flip:
+            cond = Sym('cmp', flip[op], a, b)
     if isinstance(cond, Sym) and cond.op == 'cmp':
         op, a, b = cond.args
         if isinstance(a, FieldV) and isinstance(b, int):
